@@ -195,7 +195,12 @@ func VerifC20Restart() {
 	ha := VerifAddNewHook(a)
 	ver := byte(vConcrete(int(vByteIn("\x04\x05")), 4, 5))
 	c1 := mqtt.VerifDial(a, ver, "c1", false, 300)
-	mqtt.VerifSend(c1, mqtt.VerifSubscribeBytes(2, "t", 1, ver))
+	if vBool() {
+		mqtt.VerifSend(c1, mqtt.VerifSubscribeBytes(2, "t", 1, ver))
+	} else {
+		// the same subscription granted in a SUBSCRIBE whose first filter is refused (invalid filter)
+		mqtt.VerifSend(c1, mqtt.VerifSubscribe2Bytes(2, "a/#/b", "t", 1, ver))
+	}
 	mqtt.VerifSend(c1, mqtt.VerifPublishBytes("r", 7, 0, 0, true, ver))
 	// a QoS 1 message for c1 stays unacknowledged
 	pub := mqtt.VerifDial(a, 4, "pub", true, 0)
@@ -308,7 +313,11 @@ func VerifC21Crash() {
 	cleanGone := vKVLogLen()
 	// a persistent session subscribes (SUBACK is the acknowledgement)
 	c1 := mqtt.VerifDial(a, ver, "c1", false, 300)
-	mqtt.VerifSend(c1, mqtt.VerifSubscribeBytes(2, "t", 1, ver))
+	if vBool() {
+		mqtt.VerifSend(c1, mqtt.VerifSubscribeBytes(2, "t", 1, ver))
+	} else {
+		mqtt.VerifSend(c1, mqtt.VerifSubscribe2Bytes(2, "a/#/b", "t", 1, ver)) // granted after a refused filter
+	}
 	subAcked := vKVLogLen()
 	// a publisher sends a retained QoS 1 message (PUBACK is the acknowledgement)
 	pub := mqtt.VerifDial(a, 4, "pub", true, 0)
